@@ -167,7 +167,9 @@ func buildArena(seed uint64) *arena {
 		a.Labels = append(a.Labels, []byte(genLabel(r)+"L"))
 	}
 	for k := 0; k < nProofs; k++ {
-		Cs := []*banderwagon.Element{a.Commits[k], a.Commits[k+1]}
+		// private copies: the arena's commitments keep their (possibly non-normalised) representation
+		c0, c1 := *a.Commits[k], *a.Commits[k+1]
+		Cs := []*banderwagon.Element{&c0, &c1}
 		fs := [][]fr.Element{a.Polys[k], a.Polys[k+1]}
 		zs := []uint8{a.Zs[k], a.Zs[k+1]}
 		p, err := multiproof.CreateMultiProof(common.NewTranscript("arena"), cfg, Cs, fs, zs)
@@ -605,14 +607,6 @@ func (c13) Exec(plan interface{}) Result {
 		glob0 := globalsPrint()
 		ap := a.print()
 		raw := a.rawValues()
-		probe := func() []string {
-			var ds []string
-			for _, c := range c13probeCalls {
-				d, _ := doCall(a, c)
-				ds = append(ds, d)
-			}
-			return ds
-		}
 		check := func(i int, c C13Call, after string) (bool, c13out) {
 			l, t := configPrint(cfg, i)
 			_, t0s := uint64(0), uint64(0)
@@ -651,9 +645,21 @@ func (c13) Exec(plan interface{}) Result {
 		for s := 0; s < 16; s++ {
 			_, stripe0[s] = configPrint(cfg, s)
 		}
-		before := probe()
-		if ok, oo := check(-1, C13Call{Kind: "prove"}, "(initial probe)"); !ok {
-			return oo
+		var probeFail *c13out
+		probe := func(when string) []string {
+			var ds []string
+			for k, c := range c13probeCalls {
+				d, _ := doCall(a, c)
+				ds = append(ds, d)
+				if ok, oo := check(-1-k, c, when); !ok && probeFail == nil {
+					probeFail = &oo
+				}
+			}
+			return ds
+		}
+		before := probe("(probe call before the history)")
+		if probeFail != nil {
+			return *probeFail
 		}
 		var first string
 		for i, c := range p.Calls {
@@ -672,7 +678,10 @@ func (c13) Exec(plan interface{}) Result {
 			}
 		}
 		// history independence
-		after := probe()
+		after := probe("(probe call after the history)")
+		if probeFail != nil {
+			return *probeFail
+		}
 		for k := range before {
 			if before[k] != after[k] {
 				return fail("history-dependent", "probe call %s returns a different result after the history than before it", c13probeCalls[k].Kind)
@@ -683,9 +692,6 @@ func (c13) Exec(plan interface{}) Result {
 			if d != first {
 				return fail("history-dependent", "call 0 (%s) repeated at the end of the history returns a different result", p.Calls[0].Kind)
 			}
-		}
-		if ok, oo := check(len(p.Calls), C13Call{Kind: "prove"}, "(final probe)"); !ok {
-			return oo
 		}
 		l1, t1 := configPrint(cfg, -1)
 		o.fullTableHashes++
